@@ -8,6 +8,11 @@ Streams
   C  outside the quantifier (nan/inf/overflowing numerals, blanks between number and unit, underscores):
      model vs implementation only, differences logged
   D  Python float(str) vs Model/PyFloat.lean (the `parseNum` parameter of the models), ASCII fuzz
+  S  call SEQUENCES in one process (state carried between calls: per-unit caches, memoised parses, stale
+     references): the same text with different references / defaults, the same reference with different
+     texts, the same number with every unit in turn, the five functions interleaved on one string,
+     identical calls repeated, malformed text before well-formed text of the same unit, and the SAME
+     document object with its attribute changed in place between calls; every call is judged
   T  every numeric literal of the four converter tables, re-read from the current source by an AST walk,
      against the constants of the model
 """
@@ -199,6 +204,21 @@ class Stub:
             doc = _FakeDoc(_FakeRoot({} if attr is None else {name: attr}))
         self.document = doc
 
+    def set(self, name, attr):
+        """change (or remove, attr=None) the attribute IN PLACE on the same document object"""
+        root = self.document.getroot()
+        if self.kind == 'lxml':
+            if attr is None:
+                if name in root.attrib:
+                    del root.attrib[name]
+            else:
+                root.set(name, attr)
+        else:
+            if attr is None:
+                root.attrs.pop(name, None)
+            else:
+                root.attrs[name] = attr
+
 
 # ----------------------------------------------------------------------------------------------
 # unit-table literals of the current source (AST walk)
@@ -231,6 +251,133 @@ def model_constants(ans):
         else:
             out[k] = [Fraction(x) for x in v.split(',')]
     return out
+
+
+XBLANKS = [' ', ' ', '\t', '\n', '\r']
+
+
+def xblanks(rng):
+    return ''.join(rng.choice(XBLANKS) for _ in range(rng.choice([0, 0, 1, 2])))
+
+
+def seq_jobs(rng, n, tag):
+    """ordered groups of related calls: [(stream, fn, args, extra, meta)]; list order = call order"""
+    out = []
+    REFS = [816, 1056.0, 100, 0, 0.0, 12.5, -50, 1, 0.125, 300]
+    for i in range(n):
+        start = len(out)
+        plain = i < 8
+        v = rand_value(rng) if not plain else Fraction(rng.choice([50, 25, 1, 12.5, 96, 254, 6, 72, -10, 100])) / rng.choice([1, 10])
+
+        def T(val, unit):
+            if plain:
+                return render(rng, val, plain=True) + unit
+            return xblanks(rng) + render(rng, val) + unit + xblanks(rng)
+
+        def A(fn, args, val, unit, **meta):
+            out.append(('A', fn, args, (val, unit), dict(meta)))
+
+        u = rng.choice(UNITS)
+        r1, r2 = rng.sample(REFS, 2)
+        kind = i % 8
+        if kind == 0:       # same text, different references / defaults
+            for unit in ('%', u):
+                t = T(v, unit)
+                for r in (r1, r2, None, 0, r1):
+                    A('uu', (t, r), v, unit)
+                for dflt in (r2, 0, r1, r2):
+                    A('len', (t, dflt), v, unit)
+                A('uu', (t, r2), v, unit)
+        elif kind == 1:     # same reference, different percentage texts; then another reference
+            v2 = v / 2 + 1
+            for r in (r1, r2):
+                for val in (v, v2, v):
+                    t = T(val, '%')
+                    A('uu', (t, r), val, '%')
+                    A('len', (t, r), val, '%')
+        elif kind == 2:     # the five functions interleaved on one string
+            t = T(v, u)
+            cu = CANON.get(u, u)
+            x = None if u == '%' else to_float(v * SVG[u])
+            A('parse', (t,), v, u)
+            A('uu', (t, r1), v, u)
+            A('len', (t, r2), v, u)
+            A('inch', (t,), v, u)
+            A('uu', (t, r2), v, u)
+            A('len', (t, r1), v, u)
+            if x is not None and math.isfinite(x):
+                out.append(('A', 'back', (x, cu), None, {}))
+                out.append(('A', 'back', (x, rng.choice([w for w in UNITS if w != '%'])), None, {}))
+            A('parse', (t,), v, u)
+            A('inch', (t,), v, u)
+            A('uu', (t, None), v, u)
+        elif kind == 3:     # identical calls repeated
+            t = T(v, u)
+            for _ in range(3):
+                A('parse', (t,), v, u)
+            for _ in range(3):
+                A('uu', (t, r1), v, u)
+            for _ in range(3):
+                A('len', (t, r1), v, u)
+            for _ in range(3):
+                A('inch', (t,), v, u)
+            for _ in range(3):
+                out.append(('A', 'back', (96.0, u), None, {}))
+        elif kind == 4:     # the same number with every unit in turn, then the first again
+            order = UNITS[:]
+            rng.shuffle(order)
+            for unit in order + [order[0]]:
+                t = T(v, unit)
+                A('uu', (t, r1), v, unit)
+                A('len', (t, r1), v, unit)
+                A('inch', (t,), v, unit)
+                A('parse', (t,), v, unit)
+            d = to_float(v)
+            if math.isfinite(d):
+                for unit in order + [order[0]]:
+                    out.append(('A', 'back', (d, unit), None, {}))
+        elif kind == 5:     # one document object, attribute changed in place between calls
+            sid = (tag, i)
+            u2 = rng.choice([w for w in UNITS if w != u])
+            v2 = v * 3 + 1
+            t1, t2 = T(v, u), T(v2, u2)
+            for (t, val, unit) in ((t1, v, u), (t2, v2, u2), (t1, v, u)):
+                A('len', (t, r1), val, unit, stub=sid)
+                A('inch', (t,), val, unit, stub=sid)
+                A('len', (t, r2), val, unit, stub=sid)
+            out.append(('A0', 'len', (None, r1), None, {'stub': sid}))
+            out.append(('A0', 'inch', (None,), None, {'stub': sid}))
+            A('len', (t2, r1), v2, u2, stub=sid)
+            A('len', (t1, r2), v, u, stub=sid, name='height')      # another attribute of the same object
+            A('inch', (t2,), v2, u2, stub=sid)
+            A('inch', (t1,), v, u, stub=sid, name='height')
+        elif kind == 6:     # malformed text, then well-formed text with the same ending; None in between
+            bu = rng.choice(['em', 'ex', 'rem', 'vw', 'pxpx', 'mmm'])
+            tb = T(v, bu)
+            for fn, args in (('parse', (tb,)), ('uu', (tb, r1)), ('len', (tb, r1)), ('inch', (tb,))):
+                out.append(('B', fn, args, 'unsupported unit', {}))
+            for unit in ('mm', 'px', u):
+                out.append(('B', 'uu', (unit, r1), 'no numeric part', {}))
+                t = T(v, unit)
+                A('parse', (t,), v, unit)
+                A('uu', (t, r1), v, unit)
+                out.append(('A0', 'uu', (None, r1), None, {}))
+                A('len', (t, r2), v, unit)
+                A('inch', (t,), v, unit)
+            for fn, args in (('parse', (tb,)), ('uu', (tb, r2))):
+                out.append(('B', fn, args, 'unsupported unit', {}))
+        else:               # userUnitToUnits: same number / different units, same unit / different numbers, None between
+            ds = [to_float(v), 96, 96.0, 0, to_float(v) * 2 + 1, -7.5]
+            ds = [d for d in ds if math.isfinite(d)]
+            for d in ds[:3]:
+                for unit in ('mm', 'cm', 'mm', u, 'em', u):
+                    out.append(('A', 'back', (d, unit), None, {}))
+            for unit in (u, 'in'):
+                for d in ds + [None, ds[0]]:
+                    out.append(('A', 'back', (d, unit), None, {}))
+        for j in range(start, len(out)):
+            out[j][4]['seq'] = (tag, i)
+    return [o for o in out if o is not None]
 
 
 # ----------------------------------------------------------------------------------------------
@@ -347,6 +494,29 @@ def run(ctx):
         return 'None' if x is None else frac_str(Fraction(x))
 
     jobs = []   # (stream, fn, args, idx, extra)
+    job_meta = {}   # position in jobs -> {'seq': id, 'stub': id, 'name': attribute name}
+
+    def model_line(fn, args):
+        if fn == 'parse':
+            return 'c12 parse ' + e(args[0])
+        if fn == 'uu':
+            return f'c12 uu {e(args[0])} {rat(args[1])}'
+        if fn == 'len':
+            return f'c12 len {e(args[0])} {rat(args[1])}'
+        if fn == 'inch':
+            return 'c12 inch ' + e(args[0])
+        if fn == 'back':
+            return f'c12 back {rat(args[0])} {e(args[1])}'
+        raise AssertionError(fn)
+
+    def add_seq(seq):
+        for (stream_, fn_, args_, extra_, meta_) in seq:
+            if any(isinstance(a_, str) and not executable(a_) for a_ in args_):
+                continue
+            job_meta[len(jobs)] = meta_
+            jobs.append((stream_, fn_, args_, ask(model_line(fn_, args_)), extra_))
+
+    add_seq(seq_jobs(rng, ctx.n(64), 'first'))       # S: call sequences, before anything could be cached
     for (t, v, u) in A + Abig:
         jobs.append(('A', 'parse', (t,), ask('c12 parse ' + e(t)), (v, u)))
     for i, (t, v, u) in enumerate(A):
@@ -388,6 +558,8 @@ def run(ctx):
     jobs.append(('A0', 'inch', (None,), ask('c12 inch None'), None))
     jobs.append(('A0', 'inch', ('',), ask('c12 inch -'), None))
 
+    add_seq(seq_jobs(rng, ctx.n(32), 'late'))        # S again, after a long history of other calls
+
     # ---------------- D: float() fuzz ----------------
     D = []
     alphabet = '0123456789' * 3 + '+-..eE_ \t\x0b\x1cinfatyINFATYx,%'
@@ -425,7 +597,18 @@ def run(ctx):
     outs = drv.batch(lines) if drv else [None] * len(lines)
 
     # ---------------- run the implementation, compare, judge ----------------
-    def call(fn, args):
+    shared = {}
+
+    def call(fn, args, meta=None):
+        if meta and 'stub' in meta:          # the SAME document object, its attribute changed in place
+            name = meta.get('name', 'width')
+            st = shared.get(meta['stub'])
+            if st is None:
+                st = shared[meta['stub']] = Stub(args[0], name)
+            st.set(name, args[0])
+            if fn == 'len':
+                return pu.getLength(st, name, args[1])
+            return pu.getLengthInches(st, name)
         if fn == 'parse':
             return pu.parseLengthWithUnits(*args)
         if fn == 'uu':
@@ -471,12 +654,21 @@ def run(ctx):
         d = ulps(float(r), Fraction(m))
         return d <= tol, d
 
-    for (stream, fn, args, idx, extra) in jobs:
+    seq_hist = {}
+    for pos, (stream, fn, args, idx, extra) in enumerate(jobs):
         m = outs[idx]
         inp = {'function': NAMES[fn], 'args': [repr(a) for a in args]}
+        meta = job_meta.get(pos)
+        if meta:
+            if 'stub' in meta:
+                inp['document'] = f'shared object {meta["stub"]!r}, attribute {meta.get("name", "width")!r} set in place'
+            h_ = seq_hist.setdefault(meta['seq'], [])
+            if h_:
+                inp['earlier_calls_of_the_sequence'] = h_[-12:]
+            h_.append(f'{NAMES[fn]}({", ".join(repr(a) for a in args)})')
         key = (fn, args)
         try:
-            r = call(fn, args)
+            r = call(fn, args, meta)
             exc = None
         except Exception as ex:  # noqa
             r, exc = None, ex
